@@ -23,7 +23,9 @@ UNIVERSE = ["a", "a/b", "a/b/c.txt", "a/b.txt", "a/d.txt", "a/bc", "e.txt", "f/g
             # top-level names that sort between a directory and its content ('.', '-' and ' ' sort before '/')
             "a.csv", "f-1", "a/b c",
             # a name close to what a file system allows for one component (room for a '.json' beside it, not more)
-            "a/" + "L" * 244 + ".txt"]
+            "a/" + "L" * 244 + ".txt",
+            # names starting with a dot (hidden files on a directory back-end)
+            "a/.env", ".cfg/x.txt"]
 
 
 def shards(tier, seed):
